@@ -29,24 +29,29 @@ func (o *osCtx) classOf(x args3) string {
 	return joinClasses(o.shape(x.a[0]), o.shape(x.a[1]), o.shape(x.a[2]))
 }
 
-func (o *osCtx) volAgreeAll(x args3, extra ...string) bool {
+// volCause names the root cause "the two sides parse a different volume
+// name": it returns the shape of the first string among the arguments and the
+// extra strings (intermediate strings the function parses, then the results)
+// on whose volume-name length reference and implementation disagree, "none"
+// if they agree on all of them, "n/a" for the Linux type (no volumes).
+func (o *osCtx) volCause(x args3, extra ...string) string {
 	if !o.win {
-		return true
+		return "n/a"
 	}
 
 	for i := 0; i < x.n; i++ {
 		if !o.volAgree(x.a[i]) {
-			return false
+			return winShape(x.a[i])
 		}
 	}
 
 	for _, s := range extra {
 		if !o.volAgree(s) {
-			return false
+			return winShape(s)
 		}
 	}
 
-	return true
+	return "none"
 }
 
 func strOutcome(o *osCtx, s string) string { return "str:" + o.shape(s) }
@@ -75,13 +80,13 @@ func (w *worker) cmpStr(o *osCtx, fn int, x args3, want, got string, p any, extr
 		return
 	}
 
-	extra := append([]string{want}, extraVol...)
+	extra := append(append([]string{}, extraVol...), want)
 	if p == nil {
 		extra = append(extra, got)
 	}
 
 	w.record(o, fn, o.classOf(x), strOutcome(o, want), gotStrOutcome(o, want, got, p),
-		vaString(o, o.volAgreeAll(x, extra...)), "",
+		o.volCause(x, extra...), "",
 		func() example { return example{Args: x.slice(), Want: q(want), Got: gotValue(got, p)} }, x.size())
 }
 
@@ -110,7 +115,7 @@ func (w *worker) cmpBool(o *osCtx, fn int, x args3, want, got bool, p any) {
 		gotC = panicClass(p)
 	}
 
-	w.record(o, fn, o.classOf(x), boolName(want), gotC, vaString(o, o.volAgreeAll(x)), "",
+	w.record(o, fn, o.classOf(x), boolName(want), gotC, o.volCause(x), "",
 		func() example { return example{Args: x.slice(), Want: boolName(want), Got: gotC} }, x.size())
 }
 
@@ -135,7 +140,7 @@ func (w *worker) cmpSplit(o *osCtx, x args3, wd, wf, gd, gf string, p any) {
 	}
 
 	w.record(o, fSplit, o.classOf(x), "split:"+o.shape(wd)+"|"+fileClass(wf), gotC,
-		vaString(o, o.volAgreeAll(x)), "",
+		o.volCause(x), "",
 		func() example {
 			g := gotC
 			if p == nil {
@@ -187,7 +192,7 @@ func (w *worker) cmpStrErr(o *osCtx, fn int, x args3, cwd string, want string, w
 		extra = append(extra, got)
 	}
 
-	w.record(o, fn, o.classOf(x), wantC, gotC, vaString(o, o.volAgreeAll(x, extra...)), "",
+	w.record(o, fn, o.classOf(x), wantC, gotC, o.volCause(x, extra...), "",
 		func() example { return example{Args: x.slice(), Cwd: cwd, Want: wantV, Got: gotV} }, x.size())
 }
 
@@ -222,7 +227,14 @@ func (w *worker) single(o *osCtx, s string) {
 	}
 	{
 		got, p := s1(a.dir, s)
-		w.cmpStr(o, fDir, x, r.dir(s), got, p)
+
+		if want := r.dir(s); p == nil && got == want {
+			w.cnt.add(o.idx, fDir, strCode(s, want))
+		} else {
+			// Dir cleans the part between the volume name and the last
+			// separator: a string of its own in which a volume is looked for.
+			w.cmpStr(o, fDir, x, want, got, p, o.dirMiddle(s))
+		}
 	}
 	{
 		got, p := s1(a.base, s)
@@ -254,6 +266,18 @@ func (w *worker) single(o *osCtx, s string) {
 	w.aux(o, s)
 }
 
+// dirMiddle returns the string the reference Dir hands to Clean.
+func (o *osCtx) dirMiddle(s string) string {
+	vol := len(o.ref.volumeName(s))
+
+	i := len(s) - 1
+	for i >= vol && s[i] != '/' && !(o.win && s[i] == '\\') {
+		i--
+	}
+
+	return s[vol : i+1]
+}
+
 // aux: helpers of vfs.go that the property does not list by name but that
 // belong to the same lexical layer (anchors: FromUnixPath, SplitAbs). They
 // have no counterpart in path/filepath, so the only oracle is "never panic";
@@ -265,7 +289,7 @@ func (w *worker) aux(o *osCtx, s string) {
 	w.cnt.add(o.idx, fFromUnixPath, 28)
 
 	if p != nil {
-		w.record(o, fFromUnixPath, o.classOf(x), "no-panic", panicClass(p), vaString(o, o.volAgreeAll(x)), "",
+		w.record(o, fFromUnixPath, o.classOf(x), "no-panic", panicClass(p), o.volCause(x), "",
 			func() example { return example{Args: x.slice(), Want: "returns", Got: panicClass(p)} }, x.size())
 	}
 
@@ -277,7 +301,7 @@ func (w *worker) aux(o *osCtx, s string) {
 	w.cnt.add(o.idx, fSplitAbs, 28)
 
 	if p != nil {
-		w.record(o, fSplitAbs, o.classOf(x), "no-panic", panicClass(p), vaString(o, o.volAgreeAll(x)), "",
+		w.record(o, fSplitAbs, o.classOf(x), "no-panic", panicClass(p), o.volCause(x), "",
 			func() example { return example{Args: x.slice(), Want: "returns", Got: panicClass(p)} }, x.size())
 	}
 }
@@ -323,7 +347,7 @@ func (w *worker) pair(o *osCtx, s, t string) {
 		if relDiverges(a, o, s, t) && w.confirmHang(a, s, t) {
 			w.cnt.add(o.idx, fRel, ocError)
 			w.record(o, fRel, o.classOf(x), "returns", "HANG(never returns: predicted from the preamble of Rel, confirmed by a sacrificial call)",
-				vaString(o, o.volAgreeAll(x)), "",
+				o.volCause(x), "",
 				func() example { return example{Args: x.slice(), Want: "returns", Got: "does not return"} }, x.size())
 
 			return
@@ -422,7 +446,55 @@ func (w *worker) cmpJoin(o *osCtx, fn int, x args3, want, got string, p any) {
 	}
 
 	// the string Join cleans: where the volume is actually looked for
-	w.cmpStr(o, fn, x, want, got, p, strings.Join(x.a[:x.n], `\`))
+	w.cmpStr(o, fn, x, want, got, p, o.joinRaw(x.a[:x.n]))
+}
+
+// joinRaw returns the string the reference Join hands to Clean (used to
+// attribute a disagreement to a volume-name cause, never as an oracle): for
+// Windows the concatenation rules of the toolchain's join (no separator after
+// a separator or a colon, `.\` before a leading `??` element after a lone
+// separator), for Linux the non-empty suffix of elements joined by "/".
+func (o *osCtx) joinRaw(elem []string) string {
+	if !o.win {
+		for i, e := range elem {
+			if e != "" {
+				return strings.Join(elem[i:], "/")
+			}
+		}
+
+		return ""
+	}
+
+	var (
+		b    strings.Builder
+		last byte
+	)
+
+	for _, e := range elem {
+		switch {
+		case b.Len() == 0:
+		case isSlash(last):
+			for len(e) > 0 && isSlash(e[0]) {
+				e = e[1:]
+			}
+
+			if b.Len() == 1 && strings.HasPrefix(e, "??") && (len(e) == 2 || isSlash(e[2])) {
+				b.WriteString(`.\`)
+			}
+		case last == ':':
+		default:
+			b.WriteByte('\\')
+
+			last = '\\'
+		}
+
+		if len(e) > 0 {
+			b.WriteString(e)
+			last = e[len(e)-1]
+		}
+	}
+
+	return b.String()
 }
 
 func (w *worker) triple(o *osCtx, s, t, u string) {
@@ -464,6 +536,6 @@ func (w *worker) matchCheck(o *osCtx, pattern, name string) {
 	}
 
 	w.record(o, fMatch, joinClasses("pattern:"+matchClass(pattern, o.sep), "name:"+matchClass(name, o.sep)),
-		wantC, gotC, vaString(o, true), "",
+		wantC, gotC, o.volCause(args3{}), "",
 		func() example { return example{Args: []string{pattern, name}, Want: wantC, Got: gotC} }, len(pattern)+len(name))
 }
